@@ -181,10 +181,23 @@ def run_case(cs):
             par = rng.choice([""] + [x for x in rec_dirs if os.path.isdir(os.path.join(root, x))])
             n = world.gen_name(rng, rng.choice(["plain", "space", "uni", "xml", "zsep"]), ext=False) + ".new"
             rel = (par + "/" if par else "") + n
-            if os.path.exists(os.path.join(root, rel)) or ignored(rel) is not False:
+            twin = None
+            if rec_files and rng.random() < 0.25:
+                # a new file whose path differs from a recorded one only in case (copy of it, or other content)
+                twin = rng.choice(rec_files)
+                sw = os.path.basename(twin).swapcase()
+                rel = (os.path.dirname(twin) + "/" if os.path.dirname(twin) else "") + sw
+                if rel == twin:
+                    continue
+                cs.count("added_case_variant_of_recorded_file")
+            if os.path.lexists(os.path.join(root, rel)) or ignored(rel) is not False or not os.path.isdir(os.path.dirname(os.path.join(root, rel))):
                 continue
             with open(os.path.join(root, rel), "wb") as fh:
-                fh.write(world.gen_bytes(rng))
+                if twin is not None and rng.random() < 0.5 and os.path.isfile(os.path.join(root, twin)):
+                    with open(os.path.join(root, twin), "rb") as src:
+                        fh.write(src.read())
+                else:
+                    fh.write(world.gen_bytes(rng))
             affected["added"].append(rel)
             muts.append(f"add {rel!r}")
         else:
